@@ -78,7 +78,7 @@ func TestVerifC20Local(t *testing.T) {
 	out := vhfsOpen(t)
 	defer out.Close()
 	r := vhfsRand()
-	n := 500
+	n := 360
 	if vhfsThorough() {
 		n = 5000
 	}
